@@ -340,6 +340,8 @@ def run(ctx, P):
     from . import r2
     r2.command_queue_drained(ctx, P, "C14h")
     r2.status_never_forgotten(ctx, P, "C14i")
+    from . import c09
+    c09.goodbye_per_interface_and_family(ctx, P, callers=("Zeroconf::cleanup",))     # shutdown says goodbye over both sockets (shared with C09)
     clause_queue_released(ctx, P)
     clause_a(ctx, P)
     clause_b(ctx, P)
